@@ -50,3 +50,32 @@ contract(T, 'extract_waveforms', props=['C03'],
     ensures=[('one-window-per-spike', 'len(result) == len(spike_samples) and width(result) == nsw'),
              ('window-rows-inside-the-recording', 'all(all(implies(0 <= spike_samples[q] - a + k and spike_samples[q] - a + k < dur, result[q][k] == %s) for k in range(nsw)) for q in range(len(spike_samples)))' % (_ROWS % 'spike_samples[q] - a + k')),
              ('window-rows-outside-the-recording-are-zero', 'all(all(implies(spike_samples[q] - a + k < 0 or spike_samples[q] - a + k >= dur, result[q][k] == zero_row(elem_len(channel_ids))) for k in range(nsw)) for q in range(len(spike_samples)))')])
+
+# iter_waveforms: "chunk-by-chunk ... return exactly this window for every spike, whatever ... the chunking of the recording": every yielded
+# batch holds, in order, one window per spike whose sample lies in the chunk; chunks come in order (ghost cov), no spike of a chunk is skipped.
+import contracts.c16 as _c16  # noqa: the proved contract of BaseEphysReader.iter_chunks (its yield monitor is what the loop below consumes)
+_WROW = "op_row('zero_cols', mask_eq(%s, -1), op_row('cols', %s, ops_fold(traces._ops, len(traces._ops), traces.rows[%s])))"
+_WIN = lambda blk, smp, chs: ('all(implies(0 <= %s - a + k and %s - a + k < dur, %s[k] == %s) and implies(%s - a + k < 0 or %s - a + k >= dur, %s[k] == zero_row(elem_len(%s))) for k in range(nsw))'
+                              % (smp, smp, blk, _WROW % (chs, chs, '%s - a + k' % smp), smp, smp, blk, chs))
+contract(T, 'iter_waveforms', props=['C03'],
+    params={'traces': 'obj[BaseEphysReader]', 'spike_samples': 'arr[int]', 'spike_channels': 'block[elem]', 'n_samples_waveforms': 'int', 'cache': 'bool'},
+    let={'dur': 'len(traces.rows)', 'nsw': 'n_samples_waveforms', 'a': 'n_samples_waveforms // 2'},
+    requires=[(l, e.replace('self.', 'traces.')) for l, e in AWF] + [
+        ('two-dimensional', 'traces.ndim == 2'),
+        ('chunk-bounds-nonempty', 'len(traces.chunk_bounds) >= 2 and traces.chunk_bounds[0] == 0 and increasing(traces.chunk_bounds)'),
+        ('one-channel-list-per-spike', 'len(spike_channels) == len(spike_samples) and all(spike_channels[s] is not None for s in range(len(spike_channels)))'),
+        ('spikes-inside-the-recording', 'all(0 <= spike_samples[s] and spike_samples[s] < dur for s in range(len(spike_samples)))'),
+        ('window-length-positive', 'nsw >= 1')],
+    ghost={'cov': '0'},
+    on_yield={'vars': ['waveforms'],
+              'requires': [('chunks-come-in-order', 'cov <= i0 and i0 < i1'),
+                           ('one-window-per-spike-of-the-chunk', 'len(waveforms) == len(SS) and len(SS) >= 1 and width(waveforms) == nsw and len(sc) == len(SS)'),
+                           ('batch-spikes-lie-in-the-chunk-and-are-input-spikes', 'all(i0 <= SS[j] and SS[j] < i1 and any(spike_samples[s] == SS[j] and spike_channels[s] == sc[j] for s in range(len(spike_samples))) for j in range(len(SS)))'),
+                           ('no-spike-of-the-chunk-is-skipped', 'all(implies(i0 <= spike_samples[s] and spike_samples[s] < i1, any(SS[j] == spike_samples[s] and sc[j] == spike_channels[s] for j in range(len(SS)))) for s in range(len(spike_samples)))'),
+                           ('block-j-is-the-window-of-batch-spike-j', 'all(%s for j in range(len(SS)))' % _WIN('waveforms[j]', 'SS[j]', 'sc[j]'))],
+              'updates': {'cov': 'i1'}},
+    loops={0: {'idx': 'c', 'seq': 'CH', 'invariant': [('chunks-so-far', '0 <= c and c <= len(CH) and implies(c >= 1, cov <= CH[c - 1][1]) and implies(c == 0, cov == 0)'),
+                                                    ('next-chunk-starts-after-cov', 'implies(c < len(CH), cov <= CH[c][0])')]},
+           1: {'idx': 'i', 'seq': 'SS', 'invariant': [
+               ('shape', '0 <= i and i <= len(SS) and len(waveforms) == len(SS) and width(waveforms) == nsw'),
+               ('windows-so-far', 'all(%s for q in range(i))' % _WIN('waveforms[q]', 'SS[q]', 'sc[q]'))]}})
